@@ -94,7 +94,45 @@ func (d *deepView) structField(x ssa.Value, fr *frame, idx int, cs *caseSel, dep
 		}
 		// a whole-struct store into the cell
 		var whole []storeAt
-		d.eachStoreTo(y, r.fr, func(st *ssa.Store, f *frame) { whole = append(whole, storeAt{st, f}) })
+		var zeroInit []storeAt
+		d.eachStoreTo(y, r.fr, func(st *ssa.Store, f *frame) {
+			// an explicit zero value written before the real assignments (var x T = T{})
+			if k, isK := st.Val.(*ssa.Const); isK && k.Value == nil {
+				switch k.Type().Underlying().(type) {
+				case *types.Struct, *types.Array:
+					zeroInit = append(zeroInit, storeAt{st, f})
+					return
+				}
+			}
+			// ... also in the form of an empty composite literal (a fresh local nothing is stored into)
+			if ld, isLd := st.Val.(*ssa.UnOp); isLd && ld.Op == token.MUL {
+				if za, isA := ld.X.(*ssa.Alloc); isA && za.Comment == "complit" {
+					stored := false
+					for _, r := range *za.Referrers() {
+						switch rr := r.(type) {
+						case *ssa.Store:
+							stored = true
+						case *ssa.FieldAddr:
+							for _, r2 := range *rr.Referrers() {
+								if _, isSt := r2.(*ssa.Store); isSt {
+									stored = true
+								}
+							}
+						case *ssa.IndexAddr:
+							stored = true
+						}
+					}
+					if !stored {
+						zeroInit = append(zeroInit, storeAt{st, f})
+						return
+					}
+				}
+			}
+			whole = append(whole, storeAt{st, f})
+		})
+		if len(whole) == 0 {
+			whole = zeroInit
+		}
 		if s := pickStore(whole, cs); s != nil {
 			return d.structField(s.st.Val, s.fr, idx, cs, depth+1)
 		}
